@@ -21,7 +21,7 @@ def main():
     dst = '/verif/seeded/%s' % sid
     os.makedirs(dst, exist_ok=True)
     for f in os.listdir(os.path.join(wt, '_seed')):
-        if os.path.isfile(os.path.join(wt, '_seed', f)):
+        if os.path.isfile(os.path.join(wt, '_seed', f)) and os.path.getsize(os.path.join(wt, '_seed', f)) < 300000 and not f.endswith('.pyc'):
             shutil.copy(os.path.join(wt, '_seed', f), dst)
     patch = os.path.join(dst, 'patch.diff')
     demo = next((f for f in os.listdir(dst) if f.startswith('demo')), None)
@@ -44,22 +44,27 @@ def main():
     print('confirm:', json.dumps(meta['confirmed'])[:600])
     meta['checks'] = {}
     if ok:
-        rc, out = sh('git -C /repo status --porcelain')
-        assert out.strip() == '', 'repo not clean: ' + out
-        rc, out = sh('git -C /repo apply %s' % patch)
+        # the checks run against a scratch worktree carrying the change (ATHLIB_REPO): /repo stays untouched and
+        # several changes can be examined at the same time (equivalent to git -C /repo apply / checkout -- .)
+        run = '/tmp/seedrun_%s' % sid
+        sh('git -C /repo worktree remove --force %s' % run)
+        sh('git -C /repo worktree add --detach %s HEAD' % run)
+        rc, out = sh('git -C %s apply %s' % (run, patch))
+        assert rc == 0, out
         try:
             for c in checks:
                 t0 = time.time()
-                rc, out = sh('cd /verif && bin/check %s --tier %s' % (c, tier))
+                rc, out = sh('cd /verif && ATHLIB_REPO=%s VERIF_EVIDENCE_DIR=%s bin/check %s --tier %s' % (run, os.path.join(dst, 'evidence'), c, tier))
                 viol = [l for l in out.splitlines() if l.startswith('VIOLATION')]
                 what = [l.strip() for l in out.splitlines() if l.strip().startswith('what:')][:3]
                 meta['checks'][c] = {'tier': tier, 'exit': rc, 'violations': len(viol), 'first': what, 'wall_s': round(time.time() - t0, 1),
                                      'summary': out.strip().splitlines()[-1][:300]}
-                print(c, 'exit', rc, 'violations', len(viol), what[:1])
+                if rc not in (0, 1):
+                    open(os.path.join(dst, 'machinery_%s.log' % c), 'w').write(out[-20000:])
+                print(sid, c, 'exit', rc, 'violations', len(viol), what[:1], flush=True)
         finally:
-            sh('git -C /repo checkout -- .')
-            rc, out = sh('git -C /repo status --porcelain')
-            print('repo restored:', out.strip() == '')
+            sh('git -C /repo worktree remove --force %s' % run)
+            shutil.rmtree(os.path.join(dst, 'evidence'), ignore_errors=True)
     meta['needs'] = open(os.path.join(dst, 'notes.md')).read()[:1500] if os.path.exists(os.path.join(dst, 'notes.md')) else ''
     meta['caught'] = any(v['exit'] == 1 and v['violations'] > 0 for v in meta['checks'].values())
     with open(os.path.join(dst, 'meta.json'), 'w') as f:
